@@ -182,6 +182,9 @@ type Conn struct {
 	done chan struct{}
 
 	closed uint64
+
+	// vs carries the verification hooks; empty without the verif build tag.
+	vs verifClient
 }
 
 // setLastErr records the error that ended the connection, keeping the first one
@@ -241,6 +244,7 @@ func NewConn(c net.Conn, opts ConnOpts) *Conn {
 		onDisconnect:  opts.OnDisconnect,
 	}
 
+	nc.vs.register(nc)
 	nc.current.SetMaxWindowSize(1 << 20)
 	nc.current.SetPush(false)
 
@@ -539,6 +543,7 @@ func (c *Conn) Close() error {
 // If the connection is closed before the request reaches the write loop, the
 // Ctx is resolved with the reason instead of being left to time out.
 func (c *Conn) Write(r *Ctx) {
+	c.vs.ev(verifEvInQueued)
 	select {
 	case c.in <- r:
 	case <-c.done:
@@ -560,6 +565,7 @@ func (c *Conn) Write(r *Ctx) {
 // writeOut queues a connection-level frame. It drops the frame rather than
 // blocking forever when the write loop has already exited.
 func (c *Conn) writeOut(fr *FrameHeader) {
+	c.vs.ev(verifEvOutQueued)
 	select {
 	case c.out <- fr:
 	case <-c.done:
@@ -645,6 +651,8 @@ func (we WriteError) As(target interface{}) bool {
 }
 
 func (c *Conn) writeLoop() {
+	defer c.vs.ev(verifEvWriteLoopExit)
+
 	lastErr := c.runWriteLoop()
 	if lastErr == nil {
 		lastErr = io.ErrUnexpectedEOF
@@ -697,10 +705,14 @@ func (c *Conn) runWriteLoop() (lastErr error) {
 	defer ticker.Stop()
 
 	for {
+		c.vs.idle()
+
 		select {
 		case <-c.done:
 			return lastErr
 		case ctx := <-c.in: // sending requests
+			c.vs.busy()
+			c.vs.ev(verifEvInTaken)
 			err := c.writeRequest(ctx)
 			if err != nil {
 				ctx.resolve(err)
@@ -712,6 +724,8 @@ func (c *Conn) runWriteLoop() (lastErr error) {
 				return WriteError{err}
 			}
 		case fr := <-c.out: // generic output
+			c.vs.busy()
+			c.vs.ev(verifEvOutTaken)
 			err := c.writeFrame(fr)
 
 			ReleaseFrameHeader(fr)
@@ -720,10 +734,13 @@ func (c *Conn) runWriteLoop() (lastErr error) {
 				return WriteError{err}
 			}
 		case <-c.winCh: // a send window opened
+			c.vs.busy()
+			c.vs.winTaken()
 			if err := c.flushPending(); err != nil {
 				return WriteError{err}
 			}
 		case <-ticker.C: // ping
+			c.vs.busy()
 			if err := c.writePing(); err != nil {
 				return WriteError{err}
 			}
@@ -764,6 +781,7 @@ func (c *Conn) finish(r *Ctx, stream uint32, err error) {
 }
 
 func (c *Conn) readLoop() {
+	defer c.vs.ev(verifEvReadLoopExit)
 	defer func() { _ = c.Close() }()
 
 	// A panic here would otherwise take the whole process down: this goroutine
@@ -788,6 +806,8 @@ func (c *Conn) readLoop() {
 	}()
 
 	for {
+		c.vs.ev(verifEvReadIter)
+
 		fr, err := c.readNext()
 		if err != nil {
 			c.setLastErr(err)
@@ -1054,6 +1074,7 @@ func (c *Conn) addWindow(streamID uint32, inc int32) {
 // signalWindow nudges the write loop. The channel holds one token: the loop
 // only needs to know that something changed, not how many times.
 func (c *Conn) signalWindow() {
+	c.vs.winSignal()
 	select {
 	case c.winCh <- struct{}{}:
 	default:
